@@ -40,6 +40,10 @@ var (
 	drAC    = hx.Op{K: "delrange", Key: "a", End: "c", Sync: true}
 	read    = hx.Op{K: "read"}
 	reopen  = hx.Op{K: "reopen"}
+	setCs   = hx.Op{K: "set", Key: "c", Sync: true}
+	// an ordinary batch whose WAL record spans three 32 KiB blocks: a read fault while the log is
+	// replayed can then land in the middle of a record
+	padA = hx.Op{K: "batch", Sub: sub(hx.Op{K: "set", Key: "a"}), Pad: 70000, Sync: true}
 )
 
 var curated = [][]hx.Op{
@@ -48,6 +52,7 @@ var curated = [][]hx.Op{
 	{setA, mergeB, flush, setAs, compact, read, drAC, flush},
 	{setAs, flush, setBs, flush, compact, reopen, read, ingA},
 	{setAs, ingA, read, flush, compact, delAs, read},
+	{setBs, padA, setCs, reopen, read, delAs, read},
 }
 
 type Case struct {
